@@ -363,7 +363,7 @@ def run(ctx):
         c.pop("at", None)
         gen = [c]
     else:
-        gen = corpus() + [gen_case(ctx.rng) for _ in range(ctx.budget(120, 2500))]
+        gen = corpus() + [gen_case(ctx.rng) for _ in range(ctx.budget(400, 8000))]
     lines, impl, cases, canon = [], [], [], []
     real_clock = gm_mod.current_datetime_with_zone
     # StorageFarmBroker._make_storage_server passes no now_fn: the verifiers read this module-level clock
